@@ -28,6 +28,9 @@ CHECKS["C05"] = ("exploration", "deterministic simulation: replaying/reordering 
 CHECKS["C10"] = ("exploration", "deterministic simulation with a simulated clock: every setup_rx / RxRequest RfConfig and Timer::at / TimeoutRequest argument compared with RP002 (tables as formulas) on the parameters in force before the transmission",
  "After every uplink of seeded histories (region-valid MAC commands and JoinAccept settings that move RX1DROffset, RX2, RxDelay, DlChannel mappings, data rate; both front-ends' timing arithmetic with varied board lead/offset and tx() return values; nb set_datarate between TX and RX1) the RX1/RX2/RXC configurations and timer requests must equal the reference. Sampling; the (region, uplink DR, offset, RX2 override, delay) tuples reached are counted in the evidence.",
  "Trusted: refregion.rs (RP002-1.0.3 tables written independently, self-tested on spot values), the H1 snapshot as the source of the parameters in force (C08/C11 check that it follows the network's commands). Ambiguous RX1 table entries accept any region-defined LoRa data rate.", "6 (C10)")
+CHECKS["C08"] = ("exploration", "deterministic simulation: executable reference MAC model stepped by the device's own answers and compared with a state snapshot after every accepted Class A downlink; answer sequence / truncation / stickiness checked over the uplink history",
+ "For every downlink accepted in RX1/RX2 the request stream is parsed independently, the next uplink's answers are decoded by the reference codec (FOpts or port 0), checked against the expected sequence (order, whole commands, LinkADRReq block copies, trailing-only truncation at 15 bytes), then the reference model applies exactly the fully acknowledged requests per RP002 and must equal the H1 snapshot (ACK => applied exactly, NAK => nothing changed); a closed list of unambiguously invalid requests must be rejected; sticky answers are followed across later uplinks with rejected and Class C frames in between. Field sweep complete in the thorough tier; histories sampled.",
+ "Trusted: refmac.rs / refregion.rs (RP002 semantics written independently), the H1 snapshot (its externally visible consequences are cross-checked by C10 and C09). Requests whose answers were dropped for lack of room may or may not have been applied.", "6 (C08), Appendix A")
 PENDING = {}
 
 def main():
